@@ -329,7 +329,23 @@ def check_C04(ctx):
     return finish(ctx)
 
 
-CHECKS = {"C01": check_C01, "C02": check_C02, "C03": check_C03, "C04": check_C04}
+def check_C05(ctx):
+    ctx.rule = ("TLC enumerates every r x c integer matrix, r,c in 0..3 over {0,1,2} (+ wide shapes 1x5,5x2,4x3,2x4,6x1 over {0,5}), checks the transpose lemma "
+                "and prints the exact rational funSimAvg / funSimMax / BMA; the cache machine explores every sequence of <=2 set-level calls over all subsets "
+                "of 3 ids with an asymmetric F sharing one cache.  The harness injects the matrix through a user-supplied Similarity and compares "
+                "HpoSet::similarity, GroupSimilarity::calculate, SimilarityCombiner::calculate(Matrix) and the CachedSimilarity adaptor (3 id layouts); "
+                "non-trivial = non-square or more than one cell / more than one call")
+    outs = [tlc(ctx, "mc/MC_Combine.cfg", "mc/MC_Combine.tla")["out"],
+            tlc(ctx, "mc/MC_CombineWide.cfg", "mc/MC_Combine.tla")["out"],
+            tlc(ctx, "mc/MC_Cache.cfg" if ctx.quick else "mc/MC_Cache3.cfg", "mc/MC_Cache.tla", workers=14, timeout=1800)["out"]]
+    allout = concat(ctx, outs, "c05-lines.txt")
+    s = hv(ctx, "replay-set", prop="C05", **{"in": allout})
+    ctx.traces += s.get("cases", 0)
+    ctx.assumptions += ["small integers are exact in f32, so the crate's f32 result is compared with the spec's rational at relative 1e-6"]
+    return finish(ctx)
+
+
+CHECKS = {"C01": check_C01, "C02": check_C02, "C03": check_C03, "C04": check_C04, "C05": check_C05}
 
 
 def run_check(prop, tier, seed):
